@@ -11,7 +11,8 @@ THEOREMS = {
     "C04": ["Gen.slice_table", "Gen.slices_plain", "Gen.orders_columns", "Gen.final_demand_columns", "Gen.rebuild_part_columns", "Gen.rebuild_parts_split", "Gen.resize_keeps_orders_and_final_demand", "Gen.delivery_columns", "Gen.writer_is_layout", "Gen.reader_is_layout", "Gen.code_writer_reader_agree", "Layout.writer_reader_agree", "Layout.blocks_inside", "Layout.blocks_disjoint", "Layout.blocks_cover", "Layout.blocks_partition", "deliveries_sum", "deliveries_same_ratio_orders", "deliveries_same_ratio_fd", "deliveries_reb_length",
             "deliveries_same_ratio_reb", "deliveries_le_asked", "fd_unmet_eq", "fd_unmet_range", "reb_prod_eq"],
     "C05": ["stock_nonneg_reach_inv", "no_crash_real_inputs", "stock_update", "stock_negative_crashes", "stock_nonneg_distribute", "infinite_never_binds",
-            "production_ignores_infinite", "stock_nonneg_step", "loop_stops_on_crash", "stock_nonneg_reach"],
+            "production_ignores_infinite", "stock_nonneg_step", "loop_stops_on_crash", "stock_nonneg_reach",
+            "Gen.monotony_never_incremented", "loop_crash_stepwise"],
     "C06": ["mkParams_shareSpec", "orders_no_internal", "orders_nonneg", "orders_eq", "orders_sum_noalt", "orders_sum_alt",
             "orders_only_initial_suppliers", "shares_noalt", "shares_alt", "need_eq", "gap_nonneg"],
     "C07": ["capital_ingest", "lost_is_sum_of_active", "lost_ignores_inactive", "delta_eq", "delta_range", "delta_zero_unaffected",
@@ -43,14 +44,14 @@ THEOREMS = {
             "event_tau_rejected", "event_schedule_rejected", "event_negative_impact_rejected", "event_empty_impact_rejected", "event_excess_loss_rejected", "event_shares_rejected", "event_accepted", "params_ok", "init_econ_ok", "tracker_init_ok", "inv_step", "step_quantities_nonneg", "no_silent_failure", "inv_reach"],
     "C02": ["specDemand_eq", "step_refines_spec", "nextStep_econ", "Records.phase_order"],
     "C19": ["lifecycle_shift", "recoverOne_shift", "eventsPost_shift", "eventsPre_shift", "shift_step", "overprod_identity_at_rest",
-            "shift_step_early", "shift_run_partial", "equilibrium_step_exact", "shift_invariance"],
+            "shift_step_early", "shift_run_partial", "equilibrium_step_exact", "shift_invariance", "Gen.monotony_never_incremented"],
     "C12": ["Impact.distribute_sum", "Impact.distribute_pos", "Impact.distribute_equal", "Impact.distribute_proportional", "Impact.distribute_support",
             "Impact.reject_nonpositive_impact", "Impact.reject_empty_selection", "Impact.reject_missing_weight", "Impact.reject_negative_entry",
             "Impact.reject_negative_weight", "Impact.regions_sectors_sum", "Impact.regions_sectors_product"],
     "C15": ["Labels.canon_sorted", "Labels.canon_perm_self", "Labels.canon_perm", "Labels.values_perm", "Labels.canonTable_perm",
             "Labels.widen_perm", "Labels.widen_get", "Labels.ingest_factors"],
     "C16": ["Records.rows_faithful", "Records.rows_fill", "Records.untracked_never_written", "Records.storage_independent",
-            "Records.early_stop_intact", "Records.crash_row", "Records.run_time", "Records.stepwise_eq_loop", "Records.phase_order", "Records.one_write_per_record", "Records.guards_complete",
+            "Records.early_stop_intact", "Records.crash_row", "Records.run_time", "Records.stepwise_eq_loop", "Gen.monotony_never_incremented", "Gen.loop_range", "loop_eq_stepwise", "loop_crash_stepwise", "Records.phase_order", "Records.one_write_per_record", "Records.guards_complete",
             "Records.helpers_write_own_row", "Records.specs_bijective", "Records.writes_after_their_phase"],
     "C17": ["Storage.run_function", "Storage.isolation", "Storage.fresh_defaults_distinct", "Storage.shared_default_breaks_isolation",
             "Storage.ingest_preserves", "Storage.event_reusable", "Storage.defaults_safe"],
@@ -60,11 +61,12 @@ THEOREMS = {
 
 # Lean modules holding them
 MODULES = {pid: [f"Boario.Properties.{pid}"] for pid in THEOREMS}
-MODULES["C19"] = ["Boario.Properties.C19", "Boario.Properties.C19Run"]
+MODULES["C19"] = ["Boario.Properties.C19", "Boario.Properties.C19Run", "Boario.Properties.LoopThm"]
+MODULES["C16"] = ["Boario.Properties.C16", "Boario.Properties.LoopThm"]
 MODULES["C02"] = ["Boario.Properties.C02", "Boario.Properties.PhaseOrder"]
 MODULES["C14"] = ["Boario.Properties.C14", "Boario.Properties.PhaseOrder", "Boario.Properties.Reach"]
 MODULES["C03"] = ["Boario.Properties.C03", "Boario.Properties.Reach"]
-MODULES["C05"] = ["Boario.Properties.C05", "Boario.Properties.Reach"]
+MODULES["C05"] = ["Boario.Properties.C05", "Boario.Properties.Reach", "Boario.Properties.LoopThm"]
 MODULES["C07"] = ["Boario.Properties.C07", "Boario.Properties.Reach"]
 MODULES["C08"] = ["Boario.Properties.C08", "Boario.Properties.Reach"]
 MODULES["C06"] = ["Boario.Properties.C06", "Boario.Properties.Reach"]
@@ -81,16 +83,17 @@ STREAMS = {
     "C19": [("early", 16, 160), ("multi", 8, 80), ("negfd", 6, 40), ("earlydt", 8, 80)],
     "C09": [("recover", 36, 400), ("multi", 8, 100), ("earlydt", 8, 80)],
     "C10": [("multi", 20, 200), ("recover", 10, 100), ("rebuild", 10, 100), ("earlydt", 8, 80)],
-    "C11": [("multi", 30, 300), ("rebuild", 10, 100)],
-    "C20": [("shocked", 12, 100), ("shortage", 8, 80), ("crash", 8, 80), ("multi", 8, 80), ("eventfree", 6, 60), ("excess", 6, 40)],
+    "C11": [("multi", 26, 300), ("rebuild", 8, 100), ("finishing", 8, 80)],
+    "C20": [("shocked", 10, 100), ("shortage", 6, 80), ("crash", 8, 80), ("multi", 6, 80), ("eventfree", 4, 60), ("excess", 6, 40),
+            ("earlydt", 6, 60), ("finishing", 4, 40), ("blackout", 6, 60)],
     "C01": [("eventfree", 40, 400)],
-    "C08": [("rebuild", 30, 300), ("multi", 10, 100), ("earlydt", 8, 80)],
+    "C08": [("rebuild", 26, 300), ("multi", 10, 100), ("earlydt", 8, 80), ("finishing", 6, 60)],
     "C13": [("units", 24, 200)],
     "C18": [("shocked", 12, 120), ("shortage", 6, 60), ("eventfree", 6, 60)],
     "C03": [("shortage", 24, 300), ("shocked", 16, 200)],
-    "C04": [("shocked", 20, 300), ("shortage", 12, 200), ("multi", 10, 100), ("rebuild", 8, 80)],
+    "C04": [("shocked", 20, 300), ("shortage", 12, 200), ("multi", 8, 100), ("rebuild", 6, 80), ("finishing", 8, 80)],
     "C05": [("shocked", 12, 200), ("shortage", 8, 150), ("crash", 10, 150), ("starve", 8, 60), ("mild", 8, 100)],
-    "C06": [("shocked", 16, 300), ("shortage", 12, 200), ("mild", 16, 200)],
+    "C06": [("shocked", 16, 300), ("shortage", 12, 200), ("mild", 14, 200), ("blackout", 4, 40)],
     "C07": [("shocked", 30, 400), ("excess", 10, 100)],
     "C14": [("shocked", 20, 300), ("shortage", 16, 200), ("earlydt", 10, 100)],
 }
@@ -117,16 +120,16 @@ PHASES = {
 
 # per-step oracles (names in harness.oracles.PER_STEP) and per-run oracles
 STEP_ORACLES = {pid: [pid] for pid in ("C03", "C04", "C05", "C06", "C07", "C14")}
-STEP_ORACLES.update({"C04": ["C04", "C08"], "C02": ["C02"], "C20": ["C20"], "C08": ["C08"], "C09": ["C09"], "C10": ["C10"], "C11": ["C11", "C08"]})
+STEP_ORACLES.update({"C04": ["C04", "C08"], "C02": ["C02"], "C20": ["C20"], "C08": ["C08"], "C09": ["C09", "C10"], "C10": ["C10"], "C11": ["C11", "C08"]})
 
 # per-run oracles, construction obligations, paired-run oracles (names resolved in harness/runner.py)
 RUN_ORACLES = {"C01": ["c01"], "C05": ["c05_run"], "C07": ["c07_capital"], "C08": ["c08_init"], "C11": ["c11_run"]}
-INIT_OBLIGATIONS = {"C01": ["mkparams"], "C07": ["mkparams"], "C08": ["trackerinit"], "C13": ["trackerinit"], "C18": ["mkparams"]}
+INIT_OBLIGATIONS = {"C01": ["mkparams"], "C02": ["mkparams"], "C03": ["mkparams"], "C06": ["mkparams"], "C07": ["mkparams", "trackerinit"], "C08": ["trackerinit"], "C13": ["trackerinit"], "C18": ["mkparams"]}
 PAIRED = {"C10": ["c10_prefix"], "C11": ["c11_order"], "C13": ["c13_units"], "C18": ["c18_variants", "c18_orders"],
           "C19": ["c19_shift", "c19_late"], "C17": ["c17_determinism"]}
 
 # properties whose Lean side includes tables regenerated from the source on every run
-GEN = {"C16": True, "C17": True, "C02": True, "C14": True, "C04": True, "C11": True}
+GEN = {"C16": True, "C17": True, "C02": True, "C14": True, "C04": True, "C11": True, "C05": True, "C19": True}
 
 NONTRIVIAL = {
     "C12": ("weights", "non-uniform weights or an invalid input"),
